@@ -500,9 +500,16 @@ impl LanguageServer for Backend {
                 continue;
             }
 
+            // `change.uri` could be a directory (reported with or without a trailing slash): the
+            // documents below it go as well. A mere common prefix (`notes` and `notes.md`) does not
+            // make one path contain the other.
+            let deleted = change.uri.as_str().trim_end_matches('/');
+
             doc_lock.retain(|url, _| {
-                // `change.uri` could be a directory so use `starts_with` instead of `==`.
-                let to_remove = url.as_str().starts_with(change.uri.as_str());
+                let to_remove = url
+                    .as_str()
+                    .strip_prefix(deleted)
+                    .is_some_and(|rest| rest.is_empty() || rest.starts_with('/'));
 
                 if to_remove {
                     urls_to_clear.push(url.clone());
